@@ -96,7 +96,7 @@ def default_execute(scn, ctx, timeout=10.0, digests=False):
         obs[run["tag"]] = o
     rec = dict(scn)
     rec["snapshot"] = snap
-    rec["root"] = os.path.realpath(w.paths[0])
+    rec["rootpath"] = os.path.realpath(w.paths[0])
     rec["ctl"] = [chr(i) for i in range(1, 32)]      # characters TLA+ source cannot spell
     rec["nul"] = "\0"
     rec["obs"] = obs
